@@ -27,7 +27,7 @@ func (c timedCmd) dur(T int) int {
 	case "quick":
 		return 1
 	case "slow":
-		return T * 6 / 10
+		return T * 4 / 10
 	}
 	return 30000
 }
@@ -38,7 +38,7 @@ func (c timedCmd) shell(trace, tok string, T int) string {
 	case "quick":
 		return pre + fmt.Sprintf("exit %d", c.exit)
 	case "slow":
-		return pre + fmt.Sprintf("sleep %.3f; exit %d", float64(T)*0.6/1000, c.exit)
+		return pre + fmt.Sprintf("sleep %.3f; exit %d", float64(T)*0.4/1000, c.exit)
 	case "sleep":
 		return pre + "sleep 30"
 	case "loop":
@@ -215,14 +215,16 @@ func timedCase(col *Collector, s timedSpec, tag string) {
 
 func runC13(col *Collector, tier string, seed int64) {
 	rng := rand.New(rand.NewSource(seed))
-	col.res.Rule = "real TaskRunner.Run with a task timeout of 100..400ms: commands finishing early, using 60% of the timeout each (full budget per command), overrunning by a wide margin " +
+	col.res.Rule = "real TaskRunner.Run with a task timeout of 500..1000ms: commands finishing early, using 40% of the timeout each (three of them: full budget per command), overrunning by a wide margin " +
 		"(external sleep, shell busy loop, SIGINT-immune child, child whose grandchild keeps the pipe open) at every command position, in before/after hooks, with and without allow_failure; " +
 		"wall-clock bound per case = sum of min(duration, timeout) + kill grace + 1.5s (one-sided). non-trivial = all; distinct = distinct specifications"
 	q := timedCmd{"quick", 0}
 	var specs []timedSpec
 	var tags []string
 	add := func(s timedSpec, tag string) { specs = append(specs, s); tags = append(tags, tag) }
-	Ts := []int{100, 150, 250, 400}
+	// the margin between a command that must finish (40% of T) and the timeout is >= 300ms: a loaded machine
+	// must not turn a command within its budget into an overrun
+	Ts := []int{500, 600, 800, 1000}
 	// every position of a 3-command task x overrun kind x allow
 	for pos := 0; pos < 3; pos++ {
 		for _, kind := range []string{"sleep", "loop", "immune"} {
@@ -246,7 +248,7 @@ func runC13(col *Collector, tier string, seed int64) {
 		add(timedSpec{T: Ts[rng.Intn(len(Ts))], before: []timedCmd{{kind, 0}}, cmds: []timedCmd{q}, after: []timedCmd{q}}, "before-hook")
 		add(timedSpec{T: Ts[rng.Intn(len(Ts))], cmds: []timedCmd{q}, after: []timedCmd{{kind, 0}, q}, allow: rng.Intn(2) == 0}, "after-hook")
 	}
-	// each command gets the full timeout: three commands at 60% each
+	// each command gets the full timeout: three commands at 40% each
 	for _, T := range Ts {
 		sl := timedCmd{"slow", 0}
 		add(timedSpec{T: T, before: []timedCmd{sl}, cmds: []timedCmd{sl, sl, sl}, after: []timedCmd{sl}}, "full-budget-each")
